@@ -44,7 +44,8 @@ def tree_hash(repo=REPO):
     if not os.environ.get('VERIF_NO_CANON'):
         # the cached document is the name-canonicalised one (canon.py): key the cache by the resolver and its reference too
         from . import canon
-        for p in (canon.REF, canon.__file__):
+        from . import hoist
+        for p in (canon.REF, canon.__file__, hoist.__file__):
             if os.path.isfile(p):
                 _sha_file(h, p)
     else:
@@ -119,6 +120,11 @@ def extract(config='dev', repo=REPO, verbose=False):
         if not os.environ.get('VERIF_NO_CANON'):
             from . import canon
             doc, notes = canon.resolve(doc)
+            if os.path.isfile(canon.REF):
+                from . import hoist
+                with open(canon.REF) as f:
+                    doc, n2 = hoist.apply(doc, json.load(f))
+                notes = notes + n2
             doc['canon_notes'] = notes
         with open(out, 'w') as f:
             json.dump(doc, f)
